@@ -89,6 +89,30 @@ pub fn c06_check_triple(lk: &Likely, l: &str, s: Option<&str>, r: Option<&str>) 
         (None, false) if got == t => {}
         _ => out.push(fail("method-disagrees", format!("likelysubtags::maximize = {:?}, LanguageIdentifier::maximize -> {} / {}", ans, b, li))),
     }
+    // the same query with the language built by the other public constructors (TryFrom<Option<_>>, from_bytes on
+    // upper-cased text, the integer round trip): the answer is a function of the (language, script, region) asked for,
+    // not of the route by which the caller obtained the subtag
+    {
+        use std::convert::TryFrom;
+        let raw: Option<u64> = t.0.into();
+        let routes: [(&str, Option<Language>); 3] = [
+            ("TryFrom(Some(text))", Language::try_from(Some(l.as_bytes())).ok()),
+            ("from_bytes(upper-cased text)", Language::from_bytes(l.to_ascii_uppercase().as_bytes()).ok()),
+            ("from_raw_unchecked(Into::<Option<u64>>)", raw.map(|x| unsafe { Language::from_raw_unchecked(x) })),
+        ];
+        for (route, lang) in routes {
+            let Some(lang) = lang else { continue };
+            match guard(|| likelysubtags::maximize(lang, t.1, t.2)) {
+                Ok(a) => {
+                    let a = a.map(|x| from_lib(&x));
+                    if a != ans {
+                        out.push(fail("answer-depends-on-constructor", format!("maximize({}) = {:?}, but {:?} when the language is built by {}", show(&(l.to_string(), s.map(String::from), r.map(String::from))), ans, a, route)));
+                    }
+                }
+                Err(p) => out.push(fail("panic", p)),
+            }
+        }
+    }
     (out, kind)
 }
 
